@@ -165,7 +165,15 @@ theorem removeAll_succeeds (bk kk : Key) (hbk : PKey bk) (hkk : PKey kk)
 `hiddenFS` runs (depth bound 64) -/
 theorem hiddenFS_removeAll (hiddenPaths : List Path) (inner : FSI MFS) (m : MFS) (n : Path) :
     (hiddenFS hiddenPaths inner).call m (.removeAll n) =
-      liftU (hiddenRemoveAll (HiddenFS.mk hiddenPaths) inner 64 m n) := rfl
+      liftU (hiddenRemoveAll (HiddenFS.mk hiddenPaths) inner 64 m (rmName n)) := rfl
+
+/-- … and on the key paths the theorems are stated for, that name is the caller's (`RemoveAll` cleans
+its name first — since the repair of D23, which made uncleaned spellings such as `//./d` or `/x/../d`
+behave like the cleaned one —; a key path is in cleaned form) -/
+theorem hiddenFS_removeAll_kp (hiddenPaths : List Path) (inner : FSI MFS) (m : MFS) {k : Key} (hk : PKey k) :
+    (hiddenFS hiddenPaths inner).call m (.removeAll (kp k)) =
+      liftU (hiddenRemoveAll (HiddenFS.mk hiddenPaths) inner 64 m (kp k)) := by
+  rw [hiddenFS_removeAll, rmName_kp hk]
 
 /-- the views of the two theorems, spelled out on the disk: key `j` of the base side is the node
 at `bk ++ j`, with directory timestamps erased -/
